@@ -181,6 +181,20 @@ def gen(rng, idx, tier):
         else:
             for g in mk:
                 g["anchors"] = [a for a in g["anchors"] if a["name"].startswith("_")]
+    indic_only_mkmk = False
+    if stratum == "default" and kinds == {True} and len(mk) >= 2 and rng.random() < 0.3:
+        # an Indic font in which marks attach to marks only (no base or ligature of the Indic
+        # partition carries an anchor): abvm / blwm then hold mark-to-mark lookups alone
+        k = classes[0]
+        for g in glyphs:
+            if role.get(g["name"]) in ("base", "ligature"):
+                g["anchors"] = []
+        mk[0]["anchors"] = [{"name": "_" + k, "x": coord(rng), "y": coord(rng)},
+                            {"name": k, "x": coord(rng), "y": coord(rng)}]
+        mk[1]["anchors"] = [{"name": "_" + k, "x": coord(rng), "y": coord(rng)}]
+        for g in mk[2:]:
+            g["anchors"] = [a for a in g["anchors"] if a["name"] == "_" + k]
+        indic_only_mkmk = True
     rules = S.rules_for(desc)
     used = sorted({s for d in desc.values() for s in d["script"] if s not in ("Zyyy", "Zinh")})
     q1 = rng.random()
@@ -242,7 +256,7 @@ def gen(rng, idx, tier):
             features += "\ntable GDEF {\n    GlyphClassDef %s, %s, %s, ;\n} GDEF;\n" % (
                 cl("base"), cl("ligature"), cl("mark"))
     return {"stratum": stratum, "gdef_mode": gdef_mode, "based_mark_anchor": based_mark_anchor,
-            "stale_markclass": stale_markclass,
+            "stale_markclass": stale_markclass, "indic_only_mkmk": indic_only_mkmk,
             "ufo": {"glyphs": glyphs, "features": features, "lib": lib,
                     "info": {"unitsPerEm": 1000, "familyName": "T", "styleName": "R"}},
             "rules": rules, "lib": rng.choice(["defcon", "ufoLib2"]),
@@ -361,6 +375,8 @@ def run(case):
         bump("category_fonts")
     if case.get("based_mark_anchor"):
         bump("fonts_with_base_classed_glyph_carrying_mark_anchor")
+    if case.get("indic_only_mkmk"):
+        bump("indic_fonts_whose_marks_attach_to_marks_only")
     if case.get("stale_markclass"):
         bump("fonts_with_stale_user_markclass_" + case["stale_markclass"]["which"])
     if any(float(a["x"]) != int(a["x"]) or float(a["y"]) != int(a["y"])
